@@ -298,3 +298,179 @@ Proof.
   rewrite Hb4 in HH. replace (4 + blen body) with len in HH by (subst len; unfold blen; lia).
   rewrite HH. cbn [bind]. reflexivity.
 Qed.
+
+(* ---------------------------------------------------------------- set-field, reg_load2, note, cnt_ids *)
+Definition psetfield_ok (f : mfrec) : bool := pmf_ok f && (size (build_mf f) <? 65000).
+
+Theorem dec_built_setfield f fuel rest : psetfield_ok f = true ->
+  dec_action (S fuel) (wire (build_a (ASetField f)) ++ rest) = Ok (build_a (ASetField f)).
+Proof.
+  intros H. apply andb_true_iff in H as [Hf Hsz]. cbn [build_a]. rewrite glen_build_mf.
+  set (m := build_mf f) in *. set (L := round8 (4 + size m)).
+  pose proof (WalkAllP.round8_ge (4 + size m)) as (HL1 & HL2 & HL3). fold L in HL1, HL2, HL3.
+  cbn [wire layout acthdr enc_fields align8 flat_map]. rewrite !app_nil_r. fold (wire m).
+  set (Z := zeros (pad8 (length ((be_bytes 2 25 ++ be_bytes 2 L) ++ wire m)))).
+  rewrite <- !app_assoc. cbn [dec_action]. dispatch16.
+  assert (Hbl : (blen (be_bytes 2 25 ++ be_bytes 2 L ++ wire m ++ Z ++ rest) <? 4) = false) by (blens; nats; lia).
+  rewrite Hbl.
+  rewrite (uat_skip 2 (be_bytes 2 25) _ 2 2) by (try apply blen_be; lia). change (2 - 2) with 0.
+  rewrite (uat_here' 2 2 L _ eq_refl) by (change (256 ^ 2) with 65536; lia). cbn [bind].
+  rewrite (from_skip (be_bytes 2 25) _ 4 2) by (try apply blen_be; lia). change (4 - 2) with 2.
+  rewrite (from_skip (be_bytes 2 L) _ 2 2) by (try apply blen_be; lia). change (2 - 2) with 0. rewrite from_zero. cbn [bind].
+  subst m. rewrite dec_built_mf by exact Hf. cbn [err_is_panic bind]. reflexivity.
+Qed.
+
+Theorem dec_built_regload2 f fuel rest : psetfield_ok f = true ->
+  dec_action (S fuel) (wire (norm (build_a (ARegLoad2 f))) ++ rest) = Ok (norm (build_a (ARegLoad2 f))).
+Proof.
+  intros H. apply andb_true_iff in H as [Hf Hsz]. rewrite norm_regload2.
+  set (m := build_mf f) in *. set (L := round8 (10 + size m)).
+  pose proof (WalkAllP.round8_ge (10 + size m)) as (HL1 & HL2 & HL3). fold L in HL1, HL2, HL3.
+  replace (nx 33 L) with (nx 33 L ++ []) by apply app_nil_r.
+  rewrite (wire_nx_padded KNxRegLoad2 L 33 [] [m] eq_refl eq_refl []).
+  cbn [enc_fields flat_map app]. rewrite app_nil_r.
+  set (B := wire m ++ zeros (pad8 (10 + length (wire m)))).
+  destruct (nx_header_reads L 33 B rest ltac:(lia) ltac:(lia)) as (R0 & R2 & R4 & R8 & Rb).
+  rewrite (dec_nx_prologue _ L 33 fuel R0 R2 R4 R8) by (rewrite Rb; lia). clear R0 R2 R4 R8.
+  cbv zeta. cbn [N.eqb Pos.eqb].
+  assert (HB : 10 + blen B = L).
+  { subst B. pose proof (blen_padded (length (wire m)) (wire m) eq_refl 10%nat eq_refl) as Hp. exact Hp. }
+  replace (blen (nxbytes L 33 B ++ rest) <? L) with false by (rewrite Rb; lia).
+  unfold nxbytes. rewrite <- !app_assoc.
+  rewrite (from_skip (be_bytes 2 65535) _ 10 2) by (try apply blen_be; lia). change (10 - 2) with 8.
+  rewrite (from_skip (be_bytes 2 L) _ 8 2) by (try apply blen_be; lia). change (8 - 2) with 6.
+  rewrite (from_skip (be_bytes 4 8992) _ 6 4) by (try apply blen_be; lia). change (6 - 4) with 2.
+  rewrite (from_skip (be_bytes 2 33) _ 2 2) by (try apply blen_be; lia). change (2 - 2) with 0. rewrite from_zero. cbn [bind].
+  subst B m. rewrite <- app_assoc. rewrite dec_built_mf by exact Hf. cbn [bind]. reflexivity.
+Qed.
+
+
+Theorem dec_built_note bs fuel rest : N.of_nat (length bs) <? 65000 = true ->
+  dec_action (S fuel) (wire (norm (build_a (ANote bs))) ++ rest) = Ok (canon (norm (build_a (ANote bs)))).
+Proof.
+  intros Hsz.
+  assert (Hn : norm (build_a (ANote bs)) = T KNxNote (nx 8 (round8 (10 + N.of_nat (length bs))) ++ [VB bs]) []).
+  { cbn [build_a norm writeback map]. unfold nx. cbn [app set_nth].
+    cbn [glen lenrule_of layout nxhdr app fields_len lenround align8 map sumN fold_right].
+    change (N.of_nat 2) with 2. change (N.of_nat 4) with 4.
+    match goal with |- context [round8 ?x] => replace x with (10 + N.of_nat (length bs)) by lia end. reflexivity. }
+  rewrite Hn. set (L := round8 (10 + N.of_nat (length bs))).
+  pose proof (WalkAllP.round8_ge (10 + N.of_nat (length bs))) as (HL1 & HL2 & HL3). fold L in HL1, HL2, HL3.
+  rewrite (wire_nx_padded KNxNote L 8 [FV] [] eq_refl eq_refl [VB bs]).
+  cbn [enc_fields flat_map]. rewrite !app_nil_r.
+  set (B := bs ++ zeros (pad8 (10 + length bs))).
+  assert (HB : 10 + blen B = L) by (subst B; exact (blen_padded (length bs) bs eq_refl 10%nat eq_refl)).
+  destruct (nx_header_reads L 8 B rest ltac:(lia) ltac:(lia)) as (R0 & R2 & R4 & R8 & Rb).
+  rewrite (dec_nx_prologue _ L 8 fuel R0 R2 R4 R8) by (rewrite Rb; lia). clear R0 R2 R4 R8.
+  cbv zeta. cbn [N.eqb Pos.eqb].
+  replace (blen (nxbytes L 8 B ++ rest) <? L) with false by (rewrite Rb; lia).
+  unfold nxbytes. rewrite <- !app_assoc.
+  rewrite (sl_skip (be_bytes 2 65535) _ 10 L 2) by (try apply blen_be; lia). change (10 - 2) with 8.
+  rewrite (sl_skip (be_bytes 2 L) _ 8 (L - 2) 2) by (try apply blen_be; lia). change (8 - 2) with 6.
+  rewrite (sl_skip (be_bytes 4 8992) _ 6 (L - 2 - 2) 4) by (try apply blen_be; lia). change (6 - 4) with 2.
+  rewrite (sl_skip (be_bytes 2 8) _ 2 (L - 2 - 2 - 4) 2) by (try apply blen_be; lia). change (2 - 2) with 0.
+  rewrite (sl_here B rest) by lia. cbn [bind]. unfold nx. cbn [canon app map]. reflexivity.
+Qed.
+
+Theorem dec_built_cntids c ids fuel rest : c = N.of_nat (length ids) -> c < 30000 ->
+  dec_action (S fuel) (wire (norm (build_a (ADecTtlCntIds c ids))) ++ rest) = Ok (norm (build_a (ADecTtlCntIds c ids))).
+Proof.
+  intros Hc Hsz.
+  assert (Hn : norm (build_a (ADecTtlCntIds c ids)) = build_a (ADecTtlCntIds c ids)) by reflexivity.
+  rewrite Hn. cbn [build_a]. set (L := round8 (16 + 2 * N.of_nat (length ids))).
+  pose proof (WalkAllP.round8_ge (16 + 2 * N.of_nat (length ids))) as (HL1 & HL2 & HL3). fold L in HL1, HL2, HL3.
+  rewrite (wire_nx_padded KNxDecTtlCntIds L 21 [FU 2; FZ 4; FV] [] eq_refl eq_refl [VN c; VB (ids_bytes ids)]).
+  cbn [enc_fields flat_map]. rewrite !app_nil_r.
+  set (I := ids_bytes ids). assert (HI : length I = (2 * length ids)%nat) by apply length_ids_bytes.
+  set (Z := zeros (pad8 (10 + length (be_bytes 2 c ++ zeros 4 ++ I)))).
+  assert (Hlen : length (be_bytes 2 c ++ zeros 4 ++ I) = (6 + length I)%nat) by (rewrite !app_length, length_be_bytes, length_zeros; lia).
+  assert (HB : 10 + blen ((be_bytes 2 c ++ zeros 4 ++ I) ++ Z) = L).
+  { subst Z. rewrite (blen_padded _ _ eq_refl 10%nat eq_refl). rewrite Hlen, HI. subst L. f_equal. lia. }
+  destruct (nx_header_reads L 21 ((be_bytes 2 c ++ zeros 4 ++ I) ++ Z) rest ltac:(lia) ltac:(lia)) as (R0 & R2 & R4 & R8 & Rb).
+  rewrite (dec_nx_prologue _ L 21 fuel R0 R2 R4 R8) by (rewrite Rb; lia). clear R0 R2 R4 R8.
+  cbv zeta. cbn [N.eqb Pos.eqb].
+  replace (blen (nxbytes L 21 ((be_bytes 2 c ++ zeros 4 ++ I) ++ Z) ++ rest) <? L) with false by (rewrite Rb; lia).
+  unfold nxbytes. rewrite <- !app_assoc.
+  rewrite (uat_skip 2 (be_bytes 2 65535) _ 10 2) by (try apply blen_be; lia). change (10 - 2) with 8.
+  rewrite (uat_skip 2 (be_bytes 2 L) _ 8 2) by (try apply blen_be; lia). change (8 - 2) with 6.
+  rewrite (uat_skip 2 (be_bytes 4 8992) _ 6 4) by (try apply blen_be; lia). change (6 - 4) with 2.
+  rewrite (uat_skip 2 (be_bytes 2 21) _ 2 2) by (try apply blen_be; lia). change (2 - 2) with 0.
+  rewrite (uat_here' 2 2 c _ eq_refl) by (change (256 ^ 2) with 65536; lia). cbn [bind].
+  rewrite (sl_skip (be_bytes 2 65535) _ 16 (16 + 2 * c) 2) by (try apply blen_be; lia). change (16 - 2) with 14.
+  rewrite (sl_skip (be_bytes 2 L) _ 14 (16 + 2 * c - 2) 2) by (try apply blen_be; lia). change (14 - 2) with 12.
+  rewrite (sl_skip (be_bytes 4 8992) _ 12 (16 + 2 * c - 2 - 2) 4) by (try apply blen_be; lia). change (12 - 4) with 8.
+  rewrite (sl_skip (be_bytes 2 21) _ 8 (16 + 2 * c - 2 - 2 - 4) 2) by (try apply blen_be; lia). change (8 - 2) with 6.
+  rewrite (sl_skip (be_bytes 2 c) _ 6 (16 + 2 * c - 2 - 2 - 4 - 2) 2) by (try apply blen_be; lia). change (6 - 2) with 4.
+  rewrite (sl_skip (zeros 4) _ 4 (16 + 2 * c - 2 - 2 - 4 - 2 - 2) 4) by (try apply blen_zeros; lia). change (4 - 4) with 0.
+  rewrite (sl_here I (Z ++ rest)) by (unfold blen; lia). cbn [bind]. unfold nx. cbn [app]. reflexivity.
+Qed.
+
+(* ---------------------------------------------------------------- learn *)
+Definition lspec_parse_ok (hk nbits : N) : bool :=
+  let w := lspec_word hk nbits mod 65536 in
+  let src := N.testbit w 13 in let dst := N.testbit w 11 in let out := N.testbit w 12 in
+  (N.land w 2047 =? nbits) && Bool.eqb src ((hk =? 0) || (hk =? 2)) && Bool.eqb out (hk =? 4) &&
+  (N.land w 2047 + (if src && negb out then 8192 else 0) + (if dst then 2048 else 0) + (if out then 4096 else 0) =? w).
+Lemma lspec_parse_sweep : forallb (fun hk => forallb (lspec_parse_ok hk) (ProtoP.nrange 2048)) (ProtoP.nrange 5) = true.
+Proof. vm_compute. reflexivity. Qed.
+Lemma lspec_parse_dec hk nbits : hk < 5 -> nbits < 2048 -> lspec_parse_ok hk nbits = true.
+Proof. apply (ProtoP.sweep2_lift 5 2048 lspec_parse_ok lspec_parse_sweep). Qed.
+
+Lemma dec_built_lspec s rest : lspec_wf s = true ->
+  dec_lspec (wire (build_lspec s) ++ rest) = Ok (build_lspec s) /\ 8 <= blen (wire (build_lspec s)) /\
+  glen (build_lspec s) = blen (wire (build_lspec s)).
+Proof.
+  destruct s as [hk nbits src dst sv]. cbn [lspec_wf]. intros H.
+  apply andb_true_iff in H as [H H4]. apply andb_true_iff in H as [H H3]. apply andb_true_iff in H as [H1 H2].
+  pose proof (lspec_parse_dec hk nbits ltac:(lia) ltac:(lia)) as Hw. unfold lspec_parse_ok in Hw. cbv zeta in Hw.
+  set (w := lspec_word hk nbits mod 65536) in *.
+  apply andb_true_iff in Hw as [Hw Hrec]. apply andb_true_iff in Hw as [Hw Hout]. apply andb_true_iff in Hw as [Hnb Hsrc].
+  apply N.eqb_eq in Hnb, Hrec. apply Bool.eqb_prop in Hsrc, Hout. rewrite Hnb, Hsrc, Hout in Hrec.
+  assert (Hwlt : w < 65536) by (subst w; lia).
+  unfold build_lspec. fold w. cbv zeta.
+  set (srcpart := if ((hk =? 0) || (hk =? 2))%bool then firstn (N.to_nat (2 * ((nbits + 15) / 16))) sv else lspec_field src).
+  set (dstpart := if hk =? 4 then [] else lspec_field dst).
+  assert (Hws : wire (T KLearnSpec [VN w; VB (srcpart ++ dstpart)] []) = be_bytes 2 w ++ srcpart ++ dstpart).
+  { cbn [wire layout enc_fields align8 flat_map]. rewrite !app_nil_r. reflexivity. }
+  assert (Hsl : blen srcpart = if ((hk =? 0) || (hk =? 2))%bool then 2 * ((nbits + 15) / 16) else 6).
+  { subst srcpart. unfold blen. destruct ((hk =? 0) || (hk =? 2))%bool; [cbn [negb orb] in H4; rewrite firstn_length; lia|rewrite length_lspec_field; reflexivity]. }
+  assert (Hdl : blen dstpart = if hk =? 4 then 0 else 6).
+  { subst dstpart. unfold blen. destruct (hk =? 4); [reflexivity|]. rewrite length_lspec_field. reflexivity. }
+  assert (Hk1 : 1 <= (nbits + 15) / 16) by lia.
+  split; [|split].
+  - rewrite Hws, <- !app_assoc. unfold dec_lspec.
+    replace (blen (be_bytes 2 w ++ srcpart ++ dstpart ++ rest) <? 2) with false by (blens; nats; lia).
+    rewrite (uat_here' 2 2 w _ eq_refl) by (change (256 ^ 2) with 65536; lia). cbn [bind]. cbv zeta.
+    rewrite Hnb, Hsrc, Hout.
+    destruct ((hk =? 0) || (hk =? 2))%bool eqn:Efv.
+    + (* immediate source *)
+      rewrite (sl_skip (be_bytes 2 w) _ 2 (2 + 2 * ((nbits + 15) / 16)) 2) by (try apply blen_be; lia). change (2 - 2) with 0.
+      replace (2 + 2 * ((nbits + 15) / 16) - 2) with (2 * ((nbits + 15) / 16)) by lia.
+      rewrite (sl_here srcpart _) by exact Hsl. cbn [bind].
+      assert (Hne4 : (hk =? 4) = false) by lia. rewrite Hne4 in *. 
+      rewrite (from_skip (be_bytes 2 w) _ (2 + 2 * ((nbits + 15) / 16)) 2) by (try apply blen_be; lia).
+      replace (2 + 2 * ((nbits + 15) / 16) - 2) with (2 * ((nbits + 15) / 16)) by lia.
+      rewrite (from_skip srcpart _ (2 * ((nbits + 15) / 16)) (2 * ((nbits + 15) / 16))) by (try exact Hsl; lia).
+      rewrite N.sub_diag, from_zero. cbn [bind].
+      replace (blen (dstpart ++ rest) <? 6) with false by (blens; rewrite Hdl; lia).
+      rewrite (sl_skip (be_bytes 2 w) _ _ _ 2) by (try apply blen_be; lia).
+      rewrite (sl_skip srcpart _ _ _ (2 * ((nbits + 15) / 16))) by (try exact Hsl; lia).
+      replace (2 + 2 * ((nbits + 15) / 16) - 2 - 2 * ((nbits + 15) / 16)) with 0 by lia.
+      replace (2 + 2 * ((nbits + 15) / 16) + 6 - 2 - 2 * ((nbits + 15) / 16)) with 6 by lia.
+      rewrite (sl_here dstpart rest) by exact Hdl. cbn [bind]. rewrite Hrec. reflexivity.
+    + (* source field *)
+      rewrite (from_skip (be_bytes 2 w) _ 2 2) by (try apply blen_be; lia). change (2 - 2) with 0. rewrite from_zero. cbn [bind].
+      replace (blen (srcpart ++ dstpart ++ rest) <? 6) with false by (blens; rewrite Hsl; lia).
+      rewrite (sl_skip (be_bytes 2 w) _ 2 8 2) by (try apply blen_be; lia). change (2 - 2) with 0. change (8 - 2) with 6.
+      rewrite (sl_here srcpart _) by exact Hsl. cbn [bind].
+      destruct (hk =? 4) eqn:E4.
+      * cbn [bind]. rewrite Hrec. reflexivity.
+      * rewrite (from_skip (be_bytes 2 w) _ 8 2) by (try apply blen_be; lia). change (8 - 2) with 6.
+        rewrite (from_skip srcpart _ 6 6) by (try exact Hsl; lia). change (6 - 6) with 0. rewrite from_zero. cbn [bind].
+        replace (blen (dstpart ++ rest) <? 6) with false by (blens; rewrite Hdl; lia).
+        rewrite (sl_skip (be_bytes 2 w) _ 8 (8 + 6) 2) by (try apply blen_be; lia). change (8 - 2) with 6. change (8 + 6 - 2) with 12.
+        rewrite (sl_skip srcpart _ 6 12 6) by (try exact Hsl; lia). change (6 - 6) with 0. change (12 - 6) with 6.
+        rewrite (sl_here dstpart rest) by exact Hdl. cbn [bind]. rewrite Hrec. reflexivity.
+  - rewrite Hws. blens. nats. rewrite Hsl, Hdl. destruct ((hk =? 0) || (hk =? 2))%bool eqn:Efv, (hk =? 4) eqn:E4; lia.
+  - cbn [glen lenrule_of layout fields_len lenround align8 map sumN fold_right]. rewrite Hws. blens. nats. unfold blen. rewrite app_length. lia.
+Qed.
